@@ -842,6 +842,19 @@ def rule_wrappers(rep, repo):
     c1, _ = pe.call(garci, [q, user, "ones"], {})
     rep.check(c1 is user, "R6", iunit, "user-constraint-replaced",
               "a constraint given by the user becomes %r" % (c1,))
+    # the forms a user constraint arrives in when a model is rebuilt from
+    # JSON (model_quantize, clone_model, quantized_model_from_json): the
+    # serialised dictionary of a Keras constraint, or its name
+    for form, ident in (("serialised dictionary", {
+        "class_name": "MaxNorm", "config": {"max_value": 2, "axis": 0}}),
+                        ("name", "non_neg")):
+      c2, _ = pe.call(garci, [q, ident, "ones"], {})
+      wrapped = isinstance(c2, Obj)
+      rep.check(not wrapped and (c2 == ident or (
+          isinstance(c2, Mock) and c2.attrs.get("name") == ident)), "R6",
+                iunit, "user-constraint-replaced:" + form,
+                "a user constraint given as a %s (%r) becomes %r instead of "
+                "what constraints.get makes of it" % (form, ident, c2))
   except PyRaise as e:
     rep.fail("R6", iunit, "wrapper-raises", "raises %s" % e)
   rep.extra["constraint_initializer_wrappers_checked"] = n
